@@ -56,7 +56,7 @@ CLAIMED = {
     ),
     "C16": (
         "proptest-driven insertion histories against an insertion-ordered-set model, canonical-order checks on emitted asset maps, repeated builds of generated builder scenarios",
-        "Generated histories with repeats enter every set-like type by add, from_bytes (tagged / untagged arrays repeating elements) and from_json; the emitted array must hold distinct elements in first-insertion order, len() and add's return value must follow the model; witness-set setters must emit repeated scripts / datums once; asset and mint maps must be canonically ordered at both levels; generated builder scenarios are built repeatedly (same object, clones) and must give byte-identical transactions.",
+        "Generated histories with repeats enter every set-like type by add, from_bytes (tagged / untagged arrays repeating elements) and from_json; the emitted array must hold distinct elements in first-insertion order, len() and add's return value must follow the model; a set that arrived decoded goes on receiving add() for the whole pool (members refused, others appended); witness-set setters must emit repeated scripts / datums once; asset and mint maps must be canonically ordered at both levels; generated builder scenarios are built repeatedly (same object, clones) and must give byte-identical transactions.",
         "Element equality is byte equality of the canonical encoding; hasher-state dependence is sampled by repeated builds within one process.",
         "DESIGN.md \u00a75 C16",
     ),
